@@ -21,7 +21,8 @@
    computed at construction; [built] says that no constructor raises (EnsembleGenerator
    demands equal [.size]; PredefinedGenerator equal lengths).  The only [.size] that changes
    later is that of a FilterGenerator with update_size (set to the number of rows it kept last
-   time); ResampleGenerator reads its child's current [.size] BEFORE sampling it. *)
+   time).  ResampleGenerator samples its child first and asks the RNG for indices below the
+   number of rows actually returned (len of the first vector); it never reads a [.size]. *)
 From Coq Require Import List Arith ZArith Bool.
 Import ListNotations.
 From ND.model Require Import Batch.
@@ -197,10 +198,10 @@ Section Sample.
         | Some (_, cs) => Some (tmulti t cs)
         | None => None
         end
-    | TransformN g =>                                                    (* (lambda x: x)(xs) or (lambda x: x)( *xs) *)
+    | TransformN g =>                             (* default: lambda *xs: xs[0] if len(xs) == 1 else xs *)
         match sample g k with
-        | Some (_, [c]) => Some (FT, [c])
-        | _ => None
+        | Some (_, cs) => Some (single_or FU cs)
+        | None => None
         end
     | Filter g m _ _ =>
         match sample g k with
@@ -214,27 +215,20 @@ Section Sample.
         | None => None
         end
     | Resample g r sz repl =>
-        (* generator.size is read before generator.get_examples(): a size-updating filter shows the
-           number of rows it kept at the previous call *)
-        let n := match g with
-                 | Filter _ _ _ true =>
-                     match k with
-                     | O => csize g
-                     | S k' => match sample g k' with Some (_, c :: _) => length c | _ => 0 end
-                     end
-                 | _ => csize g
-                 end in
-        let size := match sz with Some s => s | None => csize g end in
-        let idx := if repl then rint r k else firstn size (rperm r k) in
-        if (if repl then Nat.eqb (length idx) size && forallb (fun i => Nat.ltb i n) idx else Nat.eqb (length (rperm r k)) n)
-        then match sample g k with
-             | Some (f, cs) => match all_some (map (gather idx) cs) with
-                               | Some cs' => Some (match f with FT => FT | _ => FL end, cs')
-                               | None => None
-                               end
-             | None => None
-             end
-        else None                                   (* the oracle is not a possible randperm/randint result *)
+        (* xs = generator.get_examples(); n_rows = len(xs) | len(xs[0]); randint(n_rows, (size,)) | randperm(n_rows)[:size] *)
+        match sample g k with
+        | Some (f, c0 :: cs') =>
+            let n := length c0 in
+            let size := match sz with Some s => s | None => csize g end in
+            let idx := if repl then rint r k else firstn size (rperm r k) in
+            if (if repl then Nat.eqb (length idx) size && forallb (fun i => Nat.ltb i n) idx else Nat.eqb (length (rperm r k)) n)
+            then match all_some (map (gather idx) (c0 :: cs')) with
+                 | Some cs2 => Some (match f with FT => FT | _ => FL end, cs2)
+                 | None => None
+                 end
+            else None                               (* the oracle is not a possible randperm/randint result *)
+        | _ => None                                 (* the child raised, or xs[0] on an empty list: IndexError *)
+        end
     | Static g => sample g 0
     | Predefined cs => Some (single_or FL cs)
     end.
@@ -354,7 +348,7 @@ Section SpecDefs.
     | Mesh gs => length gs
     | TransformL g _ => dims g
     | TransformF g t => tdims t (dims g)
-    | TransformN g => 1
+    | TransformN g => dims g
     | Filter g _ _ _ | Resample g _ _ _ | Static g => dims g
     | Predefined cs => length cs
     end.
@@ -368,7 +362,7 @@ Section SpecDefs.
     | Mesh gs => match gs with [_] => FT | _ => FU end
     | TransformL g _ => match fform g with FT => FT | _ => FU end
     | TransformF g t => tform t (dims g)
-    | TransformN g => FT
+    | TransformN g => match dims g with 1 => FT | _ => FU end
     | Filter g _ _ _ => match dims g with 1 => FT | _ => FL end
     | Resample g _ _ _ => match fform g with FT => FT | _ => FL end
     | Static g => fform g
@@ -410,15 +404,14 @@ Section SpecDefs.
       ok (Mesh gs) k
   | ok_transL g (ts : list (option nat)) k : ok g k -> length ts = dims g -> ok (TransformL g ts) k          (* one map per dimension *)
   | ok_transF g t k : ok g k -> ok (TransformF g t) k
-  | ok_transN g k : ok g k -> dims g = 1 -> ok (TransformN g) k                        (* see findings: TypeError otherwise *)
+  | ok_transN g k : ok g k -> ok (TransformN g) k
   | ok_filter g m s u k : ok g k -> length (mask m k) = length (rsem g k) -> ok (Filter g m s u) k
   | ok_resample g r (sz : option nat) (repl : bool) k :
       ok g k ->
-      (* the RNG answered the request it was given (n = the child's CURRENT .size attribute) *)
-      (if repl then length (rint r k) = rsize g sz /\ Forall (fun i => i < size_at g k) (rint r k)
-       else length (rperm r k) = size_at g k) ->
-      (* the indices lie inside the draw actually obtained (see findings: fails above a filter) *)
-      Forall (fun i => i < length (rsem g k)) (ridx g r sz repl k) ->
+      (* the RNG answered the request it was given: randint(n, (size,)) resp. randperm(n),
+         n = the number of rows of the draw just taken *)
+      (if repl then length (rint r k) = rsize g sz /\ Forall (fun i => i < length (rsem g k)) (rint r k)
+       else length (rperm r k) = length (rsem g k) /\ Forall (fun i => i < length (rsem g k)) (rperm r k)) ->
       ok (Resample g r sz repl) k
   | ok_static g k : ok g 0 -> ok (Static g) k
   | ok_predef cs k : 1 <= length cs -> wf_cols (length cs) cs -> ok (Predefined cs) k.
